@@ -204,6 +204,7 @@ package mux
 //@   inv 2 [C11,C12] parts-so-far: forall k int :: 0 <= k && k <= rangeindex ==> partOK(c.AllowHeaders, pure0("strings.Split", h, ",")[k])
 //
 //@ fn cors.handle
+//@   ensures [C11,C12] one-snapshot: ncalls("types.Node.Methods") <= old(ncalls("types.Node.Methods")) + 1 && ncalls("types.Node.AllowHeader") == old(ncalls("types.Node.AllowHeader"))
 //@   requires corsValid(c) && r != nil && r.URL != nil && r.Header != nil && wh != nil && node != nil && wh != r.Header
 //@   nopanic
 //@   modifies http.Header.first: wh
@@ -232,7 +233,7 @@ package mux
 //@        (c.exposedHeadersString != "" ==> wh.first["Access-Control-Expose-Headers"] == c.exposedHeadersString) &&
 //@        (c.exposedHeadersString == "" ==> wh.first["Access-Control-Expose-Headers"] == old(wh.first)["Access-Control-Expose-Headers"])
 //@   ensures [C12] grant-preflight: !c.deny && originOK(c, r) && isPreflight(r) && methodOK(node, r) && hdrsAllowedFold(c, r) ==>
-//@        wh.first["Access-Control-Allow-Methods"] == nodeAllow(node) &&
+//@        wh.first["Access-Control-Allow-Methods"] == pure0("strings.Join", nodeMethods(node), ", ") &&
 //@        (c.allowHeadersString != "" ==> wh.first["Access-Control-Allow-Headers"] == c.allowHeadersString) &&
 //@        (c.maxAgeString != "" ==> wh.first["Access-Control-Max-Age"] == c.maxAgeString)
 //@   ensures [C12] not-preflight: !isPreflight(r) ==>
